@@ -1,10 +1,15 @@
 import Martian.Determinism
+import Martian.DeterminismAccum
 import Driver.Util
 
 /-! Line-protocol handler for property C10.
   mapformat <isStruct 0|1> <prefix hex> <vindent hex> <entries>   entries: key:keyText:single:text,…  (hex fields) or `.`
   json <entries>                                                  entries: key:keyJson:valJson,…
   sortkeys <hex list>
+  accum <entries>        entries: key:done:changed:hasErr:err:val,…  (flags 0|1, others hex) or `.`
+                         reply: done changed errs(hex list) vals(key=val;…) errText nodup
+                                + the same for the loop in the order GIVEN (accumulateIn): errsIn valsIn
+  firstfail <entries>    entries: key:ok:text,…   reply: vals(key=val;…) err(`none`|`some hex`) nodup
 -/
 namespace Driver.C10
 open Martian.Determinism Martian.SortKeys Driver
@@ -32,6 +37,9 @@ partial def tree : List String → Option (JTree × List String)
     pure (es.foldr (fun e acc => JTree.ocons e.1 e.2.1 e.2.2 acc) .onil, r)
   | _ => none
 
+def kvList (l : List (Key × Bytes)) : String :=
+  if l.isEmpty then "." else ";".intercalate (l.map fun p => hexOfNats p.1 ++ "=" ++ hexOfNats p.2)
+
 def handle (op : String) (args : List String) : Option String :=
   match op, args with
   | "mapformat", [st, pre, vind, es] => do
@@ -56,6 +64,28 @@ def handle (op : String) (args : List String) : Option String :=
     match tree (t.splitOn " ") with
     | some (t, []) => pure (hexOfNats t.emit ++ " " ++ boolStr t.wf)
     | _ => none
+  | "accum", [es] => do
+    let es ← entries es
+    let l ← es.mapM fun f => match f with
+      | [k, d, c, he, e, v] => do
+        let k ← nats k; let e ← nats e; let v ← nats v
+        pure (k, ({ done := d == "1", changed := c == "1", err := if he == "1" then some e else none, val := v } : EntryRes))
+      | _ => none
+    let a := accumulate l
+    let b := accumulateIn l
+    let hl (x : List Bytes) := hexList (x.map (·.map UInt8.ofNat))
+    pure (" ".intercalate [boolStr a.done, boolStr a.changed, hl a.errs, kvList a.vals,
+      hexOfNats (errorListText a.errs), boolStr (nodupKeys l), hl b.errs, kvList b.vals])
+  | "firstfail", [es] => do
+    let es ← entries es
+    let l ← es.mapM fun f => match f with
+      | [k, ok, t] => do
+        let k ← nats k; let t ← nats t
+        pure (k, (ok == "1", t))
+      | _ => none
+    let r := firstFailure (fun _ (w : Bool × Bytes) => if w.1 then Except.ok w.2 else Except.error w.2) l
+    pure (" ".intercalate [kvList r.1, (match r.2 with | some e => "some " ++ hexOfNats e | none => "none"),
+      boolStr (nodupKeys l)])
   | "sortkeys", [ks] => do
     let ks ← parseHexList ks
     pure (hexList ((forkKeyParts (ks.map (·.map UInt8.toNat))).map (·.map UInt8.ofNat)))
